@@ -1,5 +1,82 @@
-//! verification shim for `reqwest` as used by passage-protocol (error type only).
+//! Verification model of `reqwest`: the error type (passage-protocol) and a recording client (passage-adapters-http,
+//! C12). A request is never sent anywhere: its URL and the pairs handed to `RequestBuilder::query` are recorded in
+//! fixed buffers; `send` succeeds or fails as the harness decides; `json` always fails (the response body is not the
+//! subject of any claimed property).
+#![allow(static_mut_refs)]
+macro_rules! global { ($name:ident, $set:ident, $get:ident, $t:ty, $init:expr) => {
+    static mut $name: $t = $init;
+    pub fn $set(v: $t) { unsafe { $name = v; } }
+    pub fn $get() -> $t { unsafe { $name } }
+} }
 #[derive(Debug)]
 pub struct Error;
 impl std::fmt::Display for Error { fn fmt(&self, f: &mut std::fmt::Formatter<'_>) -> std::fmt::Result { f.write_str("reqwest error") } }
 impl std::error::Error for Error {}
+pub type Result<T> = std::result::Result<T, Error>;
+
+pub const URL_ROW: usize = 48; // rows of <= 64 keep CBMC's per-element constant propagation
+pub const URL_CAP: usize = 2 * URL_ROW;
+pub const VAL_CAP: usize = 48;
+pub const KEY_CAP: usize = 12;
+pub const PAIRS: usize = 3;
+global!(URL, set_url, url, [[u8; URL_ROW]; 2], [[0; URL_ROW]; 2]);
+pub fn url_byte(i: usize) -> u8 { unsafe { URL[i / URL_ROW][i % URL_ROW] } }
+global!(URL_LEN, set_url_len, url_len, usize, 0);
+global!(N_PAIRS, set_n_pairs, n_pairs, usize, 0);
+global!(KEYS, set_keys, keys, [[u8; KEY_CAP]; PAIRS], [[0; KEY_CAP]; PAIRS]);
+global!(KEY_LENS, set_key_lens, key_lens, [usize; PAIRS], [0; PAIRS]);
+global!(VALS, set_vals, vals, [[u8; VAL_CAP]; PAIRS], [[0; VAL_CAP]; PAIRS]);
+global!(VAL_LENS, set_val_lens, val_lens, [usize; PAIRS], [0; PAIRS]);
+global!(SENDS, set_sends, sends, u32, 0);
+global!(SEND_OK, set_send_ok, send_ok, bool, true);
+pub fn reset() { set_url_len(0); set_n_pairs(0); set_sends(0); }
+
+pub trait IntoUrl { fn url_str(&self) -> &str; }
+impl IntoUrl for &str { fn url_str(&self) -> &str { self } }
+impl IntoUrl for String { fn url_str(&self) -> &str { self.as_str() } }
+impl IntoUrl for &String { fn url_str(&self) -> &str { self.as_str() } }
+
+/// what `RequestBuilder::query` accepts in passage: arrays / slices of string pairs
+pub trait QueryPairs { fn record(&self); }
+fn record_pair(k: &str, v: &str) {
+    unsafe {
+        let n = N_PAIRS;
+        assert!(n < PAIRS && k.len() <= KEY_CAP && v.len() <= VAL_CAP, "reqwest model: query pair beyond the recording bound");
+        let kb = k.as_bytes(); let mut i = 0; while i < kb.len() { KEYS[n][i] = kb[i]; i += 1; } KEY_LENS[n] = kb.len();
+        let vb = v.as_bytes(); let mut j = 0; while j < vb.len() { VALS[n][j] = vb[j]; j += 1; } VAL_LENS[n] = vb.len();
+        N_PAIRS = n + 1;
+    }
+}
+impl<K: AsRef<str>, V: AsRef<str>> QueryPairs for [(K, V)] { fn record(&self) { let mut i = 0; while i < self.len() { record_pair(self[i].0.as_ref(), self[i].1.as_ref()); i += 1; } } }
+impl<K: AsRef<str>, V: AsRef<str>, const N: usize> QueryPairs for [(K, V); N] { fn record(&self) { let mut i = 0; while i < N { record_pair(self[i].0.as_ref(), self[i].1.as_ref()); i += 1; } } }
+
+#[derive(Debug, Clone, Default)]
+pub struct Client;
+#[derive(Debug, Default)]
+pub struct ClientBuilder;
+impl ClientBuilder { pub fn build(self) -> Result<Client> { Ok(Client) } }
+impl Client {
+    pub fn new() -> Client { Client }
+    pub fn builder() -> ClientBuilder { ClientBuilder }
+    pub fn get<U: IntoUrl>(&self, url: U) -> RequestBuilder {
+        let s = url.url_str().as_bytes();
+        unsafe {
+            assert!(s.len() <= URL_CAP, "reqwest model: URL beyond the recording bound");
+            let mut i = 0; while i < s.len() { URL[i / URL_ROW][i % URL_ROW] = s[i]; i += 1; }
+            URL_LEN = s.len();
+        }
+        RequestBuilder
+    }
+}
+#[derive(Debug)]
+pub struct RequestBuilder;
+impl RequestBuilder {
+    pub fn query<T: QueryPairs + ?Sized>(self, q: &T) -> RequestBuilder { q.record(); self }
+    pub fn send(self) -> Result<Response> { unsafe { SENDS += 1; if SEND_OK { Ok(Response) } else { Err(Error) } } }
+}
+#[derive(Debug)]
+pub struct Response;
+impl Response {
+    pub fn error_for_status(self) -> Result<Response> { Ok(self) }
+    pub fn json<T>(self) -> Result<T> { Err(Error) }
+}
